@@ -82,12 +82,12 @@ def run(tier="quick"):
             out = {cid: dict(v, case=next(c for c in cases if c["id"] == cid)) for cid, v in r["results"].items()}
             _results[key] = out
             return out
-    lk = facts._lock("witness")
+    lk = facts._lock("witness" + facts.worker_slot())
     try:
-        facts.prune_target("witness")
+        facts.prune_target("witness" + facts.worker_slot())
         generate(cases, d)
         env = dict(os.environ)
-        env.update({"CARGO_TARGET_DIR": os.path.join(facts.WORK, "target", "witness"), "CARGO_NET_OFFLINE": "true"})
+        env.update({"CARGO_TARGET_DIR": os.path.join(facts.WORK, "target", "witness" + facts.worker_slot()), "CARGO_NET_OFFLINE": "true"})
         env.pop("RUSTC_WORKSPACE_WRAPPER", None)
         env.pop("RUSTFLAGS", None)
         t0 = time.time()
